@@ -30,6 +30,7 @@ type Env struct {
 	top0    string // $top at function entry (for fresh())
 	depth   int
 	seenOf  func(env *Env, key string) string
+	boxed   map[string]types.Type // parameter name -> static pointee type of the pointer boxed in that interface argument
 }
 
 type specErr struct{ msg string }
